@@ -101,7 +101,7 @@ func (f *frame) builtin(b *ssa.Builtin, argv []ssa.Value, args []*Val, res ssa.V
 		}
 		if _, isMap := argv[0].Type().Underlying().(*types.Map); isMap {
 			// the number of entries of a map is not modelled: an unspecified non-negative integer
-			if f.c == nil || f.pure {
+			if tc := f.topContract(); f.c == nil || f.pure || tc == nil || !tc.MapRange {
 				return nil, unsupported("len of map")
 			}
 			n := f.e.fresh(f.prefix+"maplen", SInt)
